@@ -45,6 +45,10 @@ def gen_case(rng, tier):
             ix = R.gen_index(rng, cur[0], allow_bad=not clean)
             prog.append({"op": "sel", "dim": rng.pick([0, 0, -3]), "idx": ix, "via": rng.pick(["getitem", "select"])})
             dim = 0
+            if not clean and rng.chance(0.08):
+                # a dimension _normalize_dim must reject (only reachable through .select)
+                prog[-1] = {"op": "sel", "dim": rng.pick([2, -1, 3, -4]), "idx": ix, "via": "select"}
+                break
         elif r < 0.8:
             ix = R.gen_index(rng, cur[1], allow_bad=not clean)
             prog.append({"op": "sel", "dim": rng.pick([1, 1, -2]), "idx": ix, "via": rng.pick(["getitem", "select"])})
@@ -156,6 +160,8 @@ def ref_run(case):
                 state = R.ref_select(state, i, 0)
                 state = R.ref_select(state, j, 1)
             else:
+                if st["dim"] not in (0, 1, -3, -2):
+                    raise R.RefErr("dimension out of range")
                 state = R.ref_select(state, st["idx"], 0 if st["dim"] in (0, -3) else 1)
         except R.RefErr as ex:
             out.append({"ok": False, "why": str(ex)})
@@ -167,6 +173,8 @@ def ref_run(case):
 def step_kind(st):
     if st["op"] == "pair":
         return f"pair({st['i']['t']},{st['j']['t']})"
+    if st["dim"] not in (0, 1, -3, -2):
+        return f"selBadDim({st['idx']['t']})"
     return f"sel{0 if st['dim'] in (0, -3) else 1}({st['idx']['t']})"
 
 
@@ -260,7 +268,9 @@ def stats(cases, obss):
 def coq_step(st):
     if st["op"] == "pair":
         return f"SPair {R.coq_index(st['i'])} {R.coq_index(st['j'])}"
-    d = 0 if st["dim"] in (0, -3) else 1
+    if st["via"] == "select":      # .select(idx, dim) receives the raw dim: the model normalises it itself
+        return f"SSelZ {C.cz(st['dim'])} {R.coq_index(st['idx'])}"
+    d = 0 if st["dim"] in (0, -3) else 1   # t[idx] / t[:, idx]: the axis is fixed by the syntax
     return f"SSel {d}%nat {R.coq_index(st['idx'])}"
 
 
@@ -282,8 +292,28 @@ def coq_term(case, obs):
     # the refinement statement of Props/C05.v evaluated on this program (selection steps only)
     sels = []
     for st in case["prog"]:
-        if st["op"] != "sel":
+        if st["op"] != "sel" or st["dim"] not in (0, 1, -3, -2):
             break
         sels.append(f"({0 if st['dim'] in (0, -3) else 1}%nat, {R.coq_index(st['idx'])})")
     canon = "canon_mnt" if case["kind"] == "mnt" else "canon_met"
     return f"({term} && {canon} {R.coq_cells(case['cells'])} {C.clist(sels)})"
+
+
+def sanity(cases, obss):
+    """Fail-closed distribution check: every index kind on both axes must be drawn and error cases stay a minority."""
+    d = stats(cases, obss)
+    probs = []
+    if d["total"] and d["error_cases"] > 0.6 * d["total"]:
+        probs.append(f"{d['error_cases']} of {d['total']} programs end in an error")
+    for ax in (0, 1):
+        for k in ("int", "slice", "list", "range", "tensor", "mask"):
+            if d["index_kinds"].get(f"sel{ax}({k})", 0) == 0:
+                probs.append(f"index kind sel{ax}({k}) never drawn")
+    if not any(k.startswith("pair(") for k in d["index_kinds"]):
+        probs.append("pair access never drawn")
+    if d["through_empty"] == 0:
+        probs.append("no program passes through an empty result")
+    for kind in ("mnt/int", "mnt/float", "met/int", "met/float"):
+        if d["kinds"].get(kind, 0) == 0:
+            probs.append(f"container kind {kind} never drawn")
+    return probs
